@@ -716,36 +716,40 @@ func parsePSHeader(src string) psHeader {
 	return h
 }
 
-// interpretPS runs the program. normalise=true maps the bounding box onto the canvas rectangle
-// (geometry relative to the declared box); false converts default user space units (1/72 inch)
-// to millimetres.
-func interpretPS(data []byte, normalise bool) (*displayList, psHeader) {
-	dl := &displayList{}
+// interpretPS runs the program. Default user space units are 1/72 inch (PLRM 4.3.1) and the
+// %%BoundingBox is given in them (DSC 3.0, integers enclosing the marks): when the box so read has
+// the canvas's size (within one point) the device space is converted to millimetres absolutely.
+// Otherwise the unit error is reported ONCE, by family U, and everywhere else the geometry is
+// compared relative to the declared box (box -> canvas rectangle); unitsOK tells which.
+func interpretPS(data []byte) (dl *displayList, h psHeader, unitsOK bool) {
+	dl = &displayList{}
 	src := string(data)
-	h := parsePSHeader(src)
+	h = parsePSHeader(src)
 	if !strings.HasPrefix(h.magic, "%!PS") {
 		dl.problem("ps-header", "first line is %q", clipStr(h.magic, 40))
 	}
 	if !h.hasBBox {
 		dl.problem("ps-header", "no %%%%BoundingBox in the header comments")
-		return dl, h
+		return dl, h, false
 	}
 	bw, bh := h.bbox[2]-h.bbox[0], h.bbox[3]-h.bbox[1]
 	if bw <= 0 || bh <= 0 {
 		dl.problem("ps-header", "empty bounding box %v", h.bbox)
-		return dl, h
+		return dl, h, false
 	}
 	in := &psInterp{dl: dl, dict: map[string]psObj{}}
 	in.gs = psGState{ctm: ident, width: 1, miter: 10}
-	if normalise {
-		in.toMM = aff{CW / bw, 0, 0, CH / bh, -h.bbox[0] * CW / bw, -h.bbox[1] * CH / bh}
+	unitsOK = math.Abs(bw*mmPerPt-CW) <= mmPerPt && math.Abs(bh*mmPerPt-CH) <= mmPerPt && math.Abs(h.bbox[0]) <= 1 && math.Abs(h.bbox[1]) <= 1
+	if unitsOK {
+		in.toMM = aff{mmPerPt, 0, 0, mmPerPt, 0, 0}
 	} else {
-		in.toMM = aff{mmPerPt, 0, 0, mmPerPt, -h.bbox[0] * mmPerPt, -h.bbox[1] * mmPerPt}
+		dl.tally("ps-geometry-compared-relative-to-the-bounding-box")
+		in.toMM = aff{CW / bw, 0, 0, CH / bh, -h.bbox[0] * CW / bw, -h.bbox[1] * CH / bh}
 	}
 	prog, err := psTokenize(src)
 	if err != nil {
 		dl.problem("ps-syntax", "%v", err)
-		return dl, h
+		return dl, h, unitsOK
 	}
 	in.exec(prog, 0)
 	if len(in.stack) != 0 && !in.failed {
@@ -757,5 +761,5 @@ func interpretPS(data []byte, normalise bool) (*displayList, psHeader) {
 	if !in.shown && !h.eps {
 		dl.tally("ps-no-showpage-in-a-non-EPS-program")
 	}
-	return dl, h
+	return dl, h, unitsOK
 }
